@@ -101,3 +101,14 @@ def hard_exit(code):
     finally:
         cleanup()
         os._exit(code)
+
+
+def quiet_worker_exit():
+    """Pool workers leave through the normal interpreter shutdown, where the
+    FFT manager's atexit hook (save wisdom, re-create the pyfftw cache thread)
+    fails noisily ("can't create new thread at interpreter shutdown").  In
+    worker processes only, make that shutdown hook a no-op; solves are not
+    affected.  Must be called before the first solve of the process."""
+    from bldfm import fft_manager
+
+    fft_manager.FFTManager._cleanup = lambda self: None
